@@ -10,7 +10,28 @@ place where the Rust looked at source text *with* its trivia broke exactly that 
 lines for C13 in known_findings.txt).
 -/
 import Selene.Scope.Lints
+import Selene.Scope.MoreLints
+import Selene.Scope.RefAt
 import Selene.Std.Access
+import Selene.Std.Prog
+import Selene.Lints.DivideByZero
+import Selene.Lints.CompareNan
+import Selene.Lints.SuspiciousReverseLoop
+import Selene.Lints.DuplicateKeys
+import Selene.Lints.MixedTable
+import Selene.Lints.ConstantTableComparison
+import Selene.Lints.TypeCheckInsideCall
+import Selene.Lints.BadStringEscape
+import Selene.Lints.ParentheseConditions
+import Selene.Lints.Cyclomatic
+import Selene.Lints.UnbalancedAssignments
+import Selene.Lints.EmptyIf
+import Selene.Lints.EmptyLoop
+import Selene.Lints.IfSameThenElse
+import Selene.Lints.IfsSameCond
+import Selene.Lints.AlmostSwapped
+import Selene.Lints.MismatchedArgCount
+import Selene.Lints.MultipleStatements
 namespace Selene.Props.C13
 open Selene.Scope Selene.Lua
 
@@ -42,5 +63,139 @@ theorem C13_shift (hasFields : String → Bool) (argObserves : List String → N
     (ignore : String → Bool) (aus : Bool) (b : Block) (L₁ L₂ : Layout) :
     (scopeDiags hasFields argObserves ignore aus { block := b, layout := L₁ }).map (fun d => (d.code, d.primary, d.secondary)) =
     (scopeDiags hasFields argObserves ignore aus { block := b, layout := L₂ }).map (fun d => (d.code, d.primary, d.secondary)) := rfl
+
+/-! ## Every modelled lint
+
+`toks` (the text of every token) and `seps` (which tokens are separators) are what `purge_trivia` leaves of
+the source; the library, the configuration and the tree are the other inputs.  None of the functions below
+receives the layout — except `multiple_statements`, which is documented to look at lines and is treated
+separately (`C13_multiple_statements_lines_only`). -/
+
+structure AllDiags where
+  scope : List Diag
+  more : List Diag
+  exprLints : List Selene.Lints.Diag
+  stmtLints : List Selene.LintsB.Diag
+  library : List Selene.Std.Prog.PDiag
+deriving DecidableEq
+
+open Selene.Lints Selene.LintsB in
+/-- the diagnostics of all modelled lints (27 of selene's 35) for a chunk, in token space -/
+def allDiags (hasFields : String → Bool) (argObserves : List String → Nat → Option Bool)
+    (ignore : String → Bool) (aus roblox : Bool) (maxComplexity : Nat) (lib : Selene.Std.SegLib) (allow : List (List String))
+    (toks : List String) (seps : List Nat) (c : Chunk) : AllDiags :=
+  let σ := analyse c.block
+  let R := (Core.analyse c.block).resolvedAt
+  { scope := undefinedVariable hasFields σ ++ unusedVariable hasFields argObserves ignore aus σ ++ shadowing ignore σ,
+    more := globalUsage roblox none σ ++ unscopedVariables ignore hasFields σ,
+    exprLints := DivideByZero.lint c.block ++ CompareNan.lint c.block ++ SuspiciousReverseLoop.lint c.block ++
+      DuplicateKeys.lint c.block ++ MixedTable.lint c.block ++ ConstantTableComparison.lint c.block ++
+      TypeCheckInsideCall.lint roblox c.block ++ BadStringEscape.lint roblox c.block ++ ParentheseConditions.lint c.block ++
+      Cyclomatic.lint maxComplexity c.block,
+    stmtLints := UnbalancedAssignments.run c.block ++ EmptyIf.run c.block ++ EmptyLoop.run c.block ++
+      IfSameThenElse.run toks seps c.block ++ IfsSameCond.run toks seps c.block ++ AlmostSwapped.run toks c.block ++
+      MismatchedArgCount.run c.block,
+    library := Selene.Std.Prog.stdLint lib R c.block ++ Selene.Std.Prog.deprecatedLint lib R allow c.block ++
+      Selene.Std.Prog.mustUseLint lib R c.block }
+
+/-- **C13 (all modelled lints are layout-free).** Same tree, same token texts, any two layouts: the same
+diagnostics in token space, for every library and configuration. -/
+theorem C13_all_layout_free (hasFields : String → Bool) (argObserves : List String → Nat → Option Bool)
+    (ignore : String → Bool) (aus roblox : Bool) (maxComplexity : Nat) (lib : Selene.Std.SegLib) (allow : List (List String))
+    (toks : List String) (seps : List Nat) (b : Block) (L₁ L₂ : Layout) :
+    allDiags hasFields argObserves ignore aus roblox maxComplexity lib allow toks seps { block := b, layout := L₁ } =
+    allDiags hasFields argObserves ignore aus roblox maxComplexity lib allow toks seps { block := b, layout := L₂ } := rfl
+
+open Selene.LintsB.MultipleStatements in
+/-- **C13 (multiple_statements looks at lines only).** Two layouts that put the end of every token on the same
+line — any change of blanks and comments that neither joins nor splits lines, up to blank lines *inside* the
+file being kept — give the same reports: the lint sees the layout through `endLine` alone. -/
+theorem C13_multiple_statements_lines_only (L₁ L₂ : Layout) (h : ∀ i, endLine L₁ i = endLine L₂ i) (b : Block) :
+    run L₁ b = run L₂ b := by
+  have hp : ∀ σ c blk, prepareIf L₁ σ c blk = prepareIf L₂ σ c blk := by
+    intro σ c blk; unfold prepareIf; simp only [h]
+  have hl : ∀ σ sp, lintStmt L₁ σ sp = lintStmt L₂ σ sp := by
+    intro σ sp; unfold lintStmt; simp only [h]
+  have hs : step L₁ = step L₂ := by
+    funext σ n
+    cases n with
+    | stmt s => cases s <;> simp only [step, hp, hl]
+    | last l => simp only [step, hl]
+    | _ => rfl
+  unfold run
+  rw [hs]
+
+/-! ### … and only at *which* tokens share a line: line numbers may be relabelled -/
+
+open Selene.LintsB.MultipleStatements in
+/-- the states of two runs whose line numbers differ by the relabelling `f` -/
+def MsRel (f : Nat → Nat) (σ₁ σ₂ : Selene.LintsB.MultipleStatements.St) : Prop :=
+  σ₂.ifLines = σ₁.ifLines.map f ∧ σ₂.lines = σ₁.lines.map f ∧ σ₂.diags = σ₁.diags
+
+theorem contains_map_inj (f : Nat → Nat) (hf : ∀ a b, f a = f b → a = b) (l : List Nat) (x : Nat) :
+    (l.map f).contains (f x) = l.contains x := by
+  induction l with
+  | nil => rfl
+  | cons a rest ih =>
+    simp only [List.map_cons, List.contains_cons, ih]
+    by_cases hax : x = a
+    · subst hax; simp
+    · have : f x ≠ f a := fun h => hax (hf _ _ h)
+      have e1 : (f x == f a) = false := by simpa using this
+      have e2 : (x == a) = false := by simpa using hax
+      rw [e1, e2]
+
+theorem filter_map_inj (f : Nat → Nat) (hf : ∀ a b, f a = f b → a = b) (l : List Nat) (x : Nat) :
+    (l.map f).filter (· != f x) = (l.filter (· != x)).map f := by
+  induction l with
+  | nil => rfl
+  | cons a rest ih =>
+    simp only [List.map_cons, List.filter_cons, ih]
+    by_cases hax : a = x
+    · subst hax; simp
+    · have : f a ≠ f x := fun h => hax (hf _ _ h)
+      simp [hax, this]
+
+open Selene.LintsB.MultipleStatements in
+/-- **C13 (multiple_statements under any change of blank lines and comments that neither joins nor splits
+lines of code).** If the second layout's line numbers are the first's under an injective relabelling — blank
+lines and comment lines added or removed anywhere shift the lines after them, tokens that shared a line still
+do and no others — the reports are the same. -/
+theorem C13_multiple_statements_relabel (L₁ L₂ : Layout) (f : Nat → Nat) (hf : ∀ a b, f a = f b → a = b)
+    (h : ∀ i, endLine L₂ i = f (endLine L₁ i)) (b : Block) : run L₁ b = run L₂ b := by
+  have hl : ∀ σ₁ σ₂ sp, MsRel f σ₁ σ₂ → MsRel f (lintStmt L₁ σ₁ sp) (lintStmt L₂ σ₂ sp) := by
+    intro σ₁ σ₂ sp ⟨h1, h2, h3⟩
+    unfold lintStmt
+    simp only [h, h1, h2, h3, contains_map_inj f hf]
+    split
+    · exact ⟨rfl, rfl, rfl⟩
+    · split
+      · exact ⟨filter_map_inj f hf _ _, rfl, rfl⟩
+      · exact ⟨rfl, by simp, rfl⟩
+  have hp : ∀ σ₁ σ₂ c blk, MsRel f σ₁ σ₂ → MsRel f (prepareIf L₁ σ₁ c blk) (prepareIf L₂ σ₂ c blk) := by
+    intro σ₁ σ₂ c blk ⟨h1, h2, h3⟩
+    unfold prepareIf
+    split
+    · exact ⟨h1, h2, h3⟩
+    · simp only [h, h1, contains_map_inj f hf]
+      split
+      · exact ⟨rfl, h2, h3⟩
+      · exact ⟨by simp, h2, h3⟩
+    · exact ⟨h1, h2, h3⟩
+  have hs : ∀ σ₁ σ₂ n, MsRel f σ₁ σ₂ → MsRel f (step L₁ σ₁ n) (step L₂ σ₂ n) := by
+    intro σ₁ σ₂ n hr
+    cases n with
+    | stmt s => cases s <;> simp only [step] <;> first | exact hl _ _ _ (hp _ _ _ _ hr) | exact hl _ _ _ hr
+    | last l => simp only [step]; exact hl _ _ _ hr
+    | block _ => exact hr
+    | call _ => exact hr
+  have hfold : ∀ (ns : List Selene.LintsB.Node) σ₁ σ₂, MsRel f σ₁ σ₂ →
+      MsRel f (ns.foldl (step L₁) σ₁) (ns.foldl (step L₂) σ₂) := by
+    intro ns
+    induction ns with
+    | nil => intro _ _ hr; exact hr
+    | cons n rest ih => intro σ₁ σ₂ hr; exact ih _ _ (hs _ _ n hr)
+  unfold run
+  exact (hfold _ _ _ ⟨rfl, rfl, rfl⟩).2.2.symm
 
 end Selene.Props.C13
